@@ -139,7 +139,19 @@ pub async fn add_node(
         .map(|node| node.number)
         .max()
         .unwrap_or(0);
-    let target_node_count = current_node_count + options.count.unwrap_or(1);
+    // service numbers are u16: a count that does not fit above the highest recorded number is refused
+    let target_node_count = current_node_count
+        .checked_add(options.count.unwrap_or(1))
+        .ok_or_else(|| {
+            error!(
+                "Too many services: the service numbers would exceed {}",
+                u16::MAX
+            );
+            eyre!(
+                "Too many services: the service numbers would exceed {}",
+                u16::MAX
+            )
+        })?;
 
     let mut node_number = current_node_count + 1;
     let mut node_port = get_start_port_if_applicable(options.node_port);
